@@ -7,6 +7,8 @@
   BLOCKSKIP the byte count given to skip_bytes is the advertised block size just read (checked conversion), and the
             loop continues with the next header  (shared with C03/BLOCKS)
   RECORD    the record access yields one value per field: next_key peeks, next_value advances exactly once
+  SKIPPAIR  ... ignored decimals are taken as raw bytes, never converted; ignoring a union keeps ignoring its branch
+            (found F32)
 It does NOT decide equality of consumed byte counts as numbers.
 """
 from ..lib import *
